@@ -5,6 +5,11 @@ ROOT = os.path.dirname(os.path.dirname(os.path.abspath(__file__)))
 
 # id -> (category, technique, text, note, design_ref)
 CHECKS = {
+ "C11": ("exploration",
+         "exhaustive enumeration of (TLS configuration x client behaviour around the SSLRequest x session history) with a real crypto/tls client over a tapped in-memory transport; raw bytes judged structurally, decrypted stream differentially against the plaintext equivalent",
+         "TLS configuration {none, empty, with certificate} x client behaviour {SSLRequest+handshake, SSLRequest with a startup packet and a Query stuffed into the same segment, SSLRequest with surplus body, plaintext instead of a handshake, second SSLRequest, CancelRequest after the negotiation} x all session histories of length <=2 (quick) / <=3 (thorough) over 6 letters. With certificates: the raw server bytes are exactly 'S' followed only by well-formed TLS records, the decrypted transcript and the callbacks equal those of the same history on a plaintext connection, nothing of the stuffed plaintext reaches a callback, plaintext instead of a handshake gets no plaintext reply and no callback, Cancel inside TLS is closed silently. Without certificates: exactly 'N', then the same connection serves a fresh plaintext startup.",
+         "Cryptographic strength is not judged. crypto/tls goroutines run freely: the enumeration is over configurations and behaviours, not schedules.",
+         "DESIGN.md §3 C11"),
  "C15": ("model_checking",
          "stateless model checking of the real code under a cooperative scheduler with happens-before state caching; every schedule is simultaneously a race-detector execution whose happens-before graph only contains the library's own synchronisation (scheduler hand-offs hidden with RaceDisable/RaceEnable)",
          "Scenarios S-A (rows of different column types), S-B (same statement/portal names, different queries and values), S-C (different users + configured global parameters), thorough: S-D (3 connections), S-E (COPY-in vs queries); scripts pre-loaded one message per segment, handlers with yield points. Every schedule with <=2 preemptions (<=3 for S-A/S-C in thorough) is executed on the instrumented real code built with -race. Oracle 1: each connection's transcript (ParameterStatus as multiset) and callback trace equal those of the same script served alone; the configured parameter map is unchanged. Oracle 2: the race detector reports nothing (reports are attributed to the schedule that just ran and keyed by their frames).",
